@@ -31,19 +31,24 @@ LEVEL = "exploration"
 TECHNIQUE = "small-scope exhaustive enumeration of hostile header text against every parser and every Request attribute"
 DESIGN_REF = "DESIGN.md §4 C07"
 RULE = (
-    "inputs = every concatenation of <= k atoms over a base alphabet of 38 latin-1 atoms without control characters "
+    "inputs = every concatenation of <= k atoms over (A) a base alphabet of 38 latin-1 atoms without control characters "
     "(separators, quotes, '=', '*', '%', RFC 2231 markers, base64, a date, digits, brackets, NBSP, superscript two, "
-    "high-bit bytes, lone UTF-8 lead byte) plus <= 6 sink-specific atoms (e.g. 'x;k*=', 'bytes=', 'Basic ', ';q=', "
-    "'k=\"'). (a) 24 standalone parsers, k = 3 (quick) / 4 (thorough), returned objects touched; (b) each of 31 "
-    "client-controlled CGI variables in turn on a real Request, every public attribute + 8 calls (64 sites) read: "
-    "quick = all sites for k <= 2 and, for the 8 variables Request parses with code of its own, the sites that can "
-    "see the variable (discovered by environ-lookup recording and by differential probing) for k = 3; thorough = all "
-    "sites for k <= 3 plus k = 4 on the dependent sites for Host / QUERY_STRING / PATH_INFO; a trusted_hosts "
-    "configuration for Host; (c) 7 pairs of hostile variables (1x1 atoms quick, 2x1 both ways thorough) and 23 "
-    "content types x 26 bodies x 6 Content-Length forms; (d) ramps: prefix + (atom | ordered pair of 12 structural "
-    "atoms | 17 patterns) x 64 / 4096 (+512 thorough; single characters also x 8192) through every parser and variable. "
-    "non-trivial = distinct (call site family, input) with a non-alphanumeric character (kept for <= 3 atoms); "
-    "outcomes = distinct (call site, returned | HTTP exception | other exception)."
+    "high-bit bytes, lone UTF-8 lead byte) plus <= 7 sink-specific atoms, and (B) a per-parser grammar alphabet: the "
+    "parser's own tokens glued the way real headers glue them (e.g. 'a;q=' '1.5', 'bytes ' '0-1/2', '01 Jan 2024 ' "
+    "'25:00:00 ' '+9999', '; k*0*=' \"UTF-8''\", '\\\\400', 'example.com' ':x') plus 12 structural characters. "
+    "(a) 24 standalone parsers, k = 3 (quick) / 4 (thorough) over both alphabets, returned objects touched; (b) each of "
+    "31 client-controlled CGI variables in turn on a real Request, every public attribute + 8 calls (64 sites): quick = all "
+    "sites for k <= 2 (A) and the sites that can see the variable (found by environ-lookup recording and differential "
+    "probing) for k = 3 (A for Host / QUERY_STRING / PATH_INFO, B for the 24 variables with a grammar); thorough = all sites "
+    "for k <= 3 (A and B) plus k = 4 on the dependent sites for Host / QUERY_STRING / PATH_INFO (A) and 6 variables (B); "
+    "trusted_hosts (list and str) configurations for Host; reverse site order for the 6 variables whose sites share "
+    "cached state; 16 server-side variants (Host / Content-Type / Content-Length / QUERY_STRING / PATH_INFO absent, "
+    "IPv6 / unix SERVER_NAME, https / wss, GET) x hostile variables; plain dict/list storage classes; (c) 7 pairs of "
+    "hostile variables and 23 content types x 26 bodies x 6 Content-Length forms, and a multipart part-header product "
+    "(13 Content-Disposition x 12 Content-Type x 6 Content-Length x 5 payloads, header-name case, bare LF); (d) ramps: "
+    "prefix + (atom | ordered pair of 12 structural atoms | 17 patterns) x 64 / 4096 (+512 thorough; single characters "
+    "also x 8192). non-trivial = distinct (call site family, input) with a non-alphanumeric character (kept for <= 3 "
+    "atoms); outcomes = distinct (call site, returned | HTTP exception | other exception)."
 )
 ASSUMPTIONS = [
     "client-controlled variables are latin-1 strings without C0/C1 control characters and DEL (property domain); "
@@ -74,7 +79,7 @@ from werkzeug.datastructures import (  # noqa: E402
     IfRange, LanguageAccept, MIMEAccept, MultiDict, Range, RequestCacheControl, ResponseCacheControl,
     WWWAuthenticate,
 )
-from werkzeug.datastructures import CombinedMultiDict  # noqa: E402
+from werkzeug.datastructures import CombinedMultiDict, ImmutableDict  # noqa: E402
 from werkzeug.datastructures.cache_control import _CacheControl  # noqa: E402
 from werkzeug.exceptions import HTTPException  # noqa: E402
 from werkzeug.sansio import http as sansio_http  # noqa: E402
@@ -104,6 +109,39 @@ X_CSP = ["default-src ", "'self'"]
 X_ETAG = ['"a"', 'W/"']
 X_QS = ["a=", "%C3%A9", "%C3"]
 X_NONE: list = []
+
+# second alphabet per parser / variable: the parser's own tokens glued the way real headers glue them, plus the 12
+# structural characters - reaches branches that need a well-formed neighbourhood (q values, full content ranges,
+# RFC 2231 continuations, complete dates with odd zones, octal escapes, trusted hosts with ports ...)
+NASTY = ['"', "\\", ";", ",", "=", "*", " ", "\xff", "%", "'", "-", "a"]
+G_OPT = ["text/html", "; charset=", "utf-8", "multipart/form-data", "; boundary=", "form-data", "; name=", "; filename*=",
+         "; k*=", "UTF-8''", "%E2%82%AC", "; k*0=", "; k*1*=", "; k*0*=", '"a b"', "iso-8859-1'en'", "us-ascii''", "x''"]
+G_LIST = ["a", '"a, b"', ", ", '"a\\"b"', "b c", '""']
+G_ACC = ["text/html", "text/*", "*/*", "*/html", "a;q=", ";q=", "0.5", "1.5", "-1", "0", "1.000", ", ", ";level=1",
+         "en-US", "en", "zh-Hant-TW", "utf-8", "gzip", "*", '"0.5"']
+G_CC = ["max-age=", "max-stale", "min-fresh=", "s-maxage=", "no-cache", "private=", "no-store", "0", "3600", "-1", "x",
+        '"a, b"', ", ", "k*=", "UTF-8''%FF", "stale-if-error="]
+G_CSP = ["default-src ", "script-src", "sandbox", "'self'", "; ", ";", "*"]
+G_ETAG = ['"a"', 'W/"a"', 'w/"a"', ", ", "W/", '""', '"a', "*"]
+G_RANGE = ["bytes=", "items=", "bytes ", "0-1", "0-", "-5", "2-3", "1-2", ", ", "0-1/2", "*/2", "0-1/*", "2-1/5", "0-9/5",
+           "/", "0", "2", "-0"]
+G_DATE = ["Mon, ", "01 Jan 2024 ", "31 Feb 2024 ", "29 Feb 2023 ", "01 Jan 99 ", "01 Jan 99999 ", "01 Jan 99999999999 ", "99999999999:00:00 ",
+          "06-Nov-94 ", "Sunday, ",
+          "Sun Nov  6 ", "08:49:37 ", "00:00:00 ", "25:00:00 ", "1994", "GMT", "+0100", "-0000", "+9999", "-2500", "UT", "EST",
+          '"a"']
+G_AGE = ["0", "1", "9", "+", "_", "99999999999999999999", "e", "."]
+G_COOKIE = ["a=b", "; ", "a=", '"b"', '"b\\"c"', '"', "\\377", "\\400", "\\101", "\\8", "$Version=1"]
+G_AUTH = ["Basic ", "basic ", "Digest ", "Bearer ", "QTpi", "YTo=", "/w==", "Og==", "username=", "realm=", '"a"', ", ", "abc",
+          "k*=", "UTF-8''%FF", "=="]
+G_HOST = ["example.com", "sub.example.org", "localhost", ":80", ":443", ":8080", ":x", ":99999", "[::1]", "[", "]", "user@",
+          "xn--", "xn--a", ".", "\xe9", "1.2.3.4", "/", "?", "#"]
+G_CT = G_OPT + ["application/json", "application/x-www-form-urlencoded", "application/", "+json", "bnd"]
+G_CL = ["0", "7", "9", "+", "_", "99999999999999999999", "7,7", "0x7", "\xb2"]
+G_QS = ["a=b", "a=", "&", "%FF", "%C3%A9", "%C3", "+", "%", "%4", "\xc3\xa9", "\xc3", "#", "?"]
+G_PATH = ["/a", "/", "%2F", "%FF", "..", "\xc3\xa9", "\xc3", "?", "#", "%", "//", "\\"]
+G_XFF = ["1.2.3.4", ", ", '"a"', "::1", "unknown", "for=", "[::1]:80"]
+G_TE = ["chunked", "Chunked", "gzip", ", ", "identity"]
+G_IFRANGE = G_ETAG + ["Mon, ", "01 Jan 2024 ", "00:00:00 ", "GMT", "+9999", "31 Feb 2024 "]
 
 # ------------------------------------------------------------------ CPU budget watchdog
 
@@ -199,6 +237,9 @@ def touch(v):
         v[offers[0]]
         v.best_match(offers)
         v.best_match(offers[:1], default="d")
+        if isinstance(v, LanguageAccept):
+            v.best_match(["en-US", "de_DE"])        # neither is a primary tag: both documented fallbacks run
+            v.best_match(["zh-Hant-TW", "fil"])
         v.best
         list(v.values())
         v.provided
@@ -322,6 +363,36 @@ SINKS = {
     "unquote_etag": (_s(http.unquote_etag), X_ETAG),
     "unquote_header_value": (_s(http.unquote_header_value), X_NONE),
 }
+GRAMMAR = {
+    "parse_options_header": G_OPT, "parse_list_header": G_LIST, "parse_dict_header": G_CC, "parse_set_header": G_LIST,
+    "parse_accept_header[Accept]": G_ACC, "parse_accept_header[MIMEAccept]": G_ACC,
+    "parse_accept_header[LanguageAccept]": G_ACC, "parse_accept_header[CharsetAccept]": G_ACC,
+    "parse_cache_control_header[Request]": G_CC, "parse_cache_control_header[Response]": G_CC,
+    "parse_csp_header": G_CSP, "parse_etags": G_ETAG, "parse_range_header": G_RANGE,
+    "parse_content_range_header": G_RANGE, "parse_if_range_header": G_IFRANGE, "parse_date": G_DATE, "parse_age": G_AGE,
+    "http.parse_cookie(str)": G_COOKIE, "http.parse_cookie(environ)": G_COOKIE, "sansio.http.parse_cookie": G_COOKIE,
+    "Authorization.from_header": G_AUTH, "WWWAuthenticate.from_header": G_AUTH, "unquote_etag": G_ETAG,
+    "unquote_header_value": G_LIST,
+    # client variables
+    "HTTP_HOST": G_HOST, "CONTENT_TYPE": G_CT, "CONTENT_LENGTH": G_CL, "QUERY_STRING": G_QS, "PATH_INFO": G_PATH,
+    "HTTP_COOKIE": G_COOKIE, "HTTP_AUTHORIZATION": G_AUTH, "HTTP_ACCEPT": G_ACC, "HTTP_ACCEPT_LANGUAGE": G_ACC,
+    "HTTP_ACCEPT_CHARSET": G_ACC, "HTTP_ACCEPT_ENCODING": G_ACC, "HTTP_CACHE_CONTROL": G_CC, "HTTP_IF_MATCH": G_ETAG,
+    "HTTP_IF_NONE_MATCH": G_ETAG, "HTTP_IF_MODIFIED_SINCE": G_DATE, "HTTP_IF_UNMODIFIED_SINCE": G_DATE,
+    "HTTP_DATE": G_DATE, "HTTP_IF_RANGE": G_IFRANGE, "HTTP_RANGE": G_RANGE, "HTTP_X_FORWARDED_FOR": G_XFF,
+    "HTTP_PRAGMA": G_LIST, "HTTP_ACCESS_CONTROL_REQUEST_HEADERS": G_LIST, "HTTP_MAX_FORWARDS": G_CL,
+    "HTTP_TRANSFER_ENCODING": G_TE,
+}
+GDEEP_VARS = ("HTTP_HOST", "CONTENT_TYPE", "CONTENT_LENGTH", "QUERY_STRING", "PATH_INFO", "HTTP_COOKIE")
+
+
+def galphabet(name):
+    out = list(GRAMMAR[name])
+    for x in NASTY:
+        if x not in out:
+            out.append(x)
+    return out
+
+
 # the parsers the property names (vacuity guard: all of them ran and returned at least once)
 NAMED_SINKS = [k for k in SINKS if k not in ("unquote_etag", "unquote_header_value", "sansio.http.parse_cookie")]
 
@@ -364,8 +435,7 @@ VARS = {
 # the others are handed out as plain strings or go straight into one of the standalone parsers above, which
 # see the same alphabet at depth 3 (request level: depth 2 in quick, 3 in thorough)
 INTERPRETED = {
-    "HTTP_HOST", "CONTENT_TYPE", "CONTENT_LENGTH", "QUERY_STRING", "PATH_INFO", "HTTP_TRANSFER_ENCODING",
-    "HTTP_COOKIE", "HTTP_AUTHORIZATION",
+    "HTTP_HOST", "QUERY_STRING", "PATH_INFO",
 }
 PAIRS = [
     ("CONTENT_TYPE", "CONTENT_LENGTH"),
@@ -382,7 +452,24 @@ class TrustedRequest(Request):
     trusted_hosts = ["example.com", ".example.org"]
 
 
-CONFIGS = {"default": Request, "trusted_hosts": TrustedRequest}
+class TrustedStrRequest(Request):
+    trusted_hosts = ".example.org"       # a single str is documented as accepted by host_is_trusted
+
+
+class PlainStorageRequest(Request):
+    parameter_storage_class = ImmutableDict
+    dict_storage_class = ImmutableDict
+    list_storage_class = list
+
+
+class LimitedRequest(Request):
+    max_content_length = 6
+    max_form_memory_size = 4
+    max_form_parts = 1
+
+
+CONFIGS = {"default": Request, "trusted_hosts": TrustedRequest, "trusted_str": TrustedStrRequest,
+           "plain_storage": PlainStorageRequest, "limits": LimitedRequest}
 
 BODY = b"a=1&b=2"
 _BASE_ENV = None
@@ -407,7 +494,10 @@ def make_request(vars_, body=BODY, config="default", env_cls=dict):
     if body is not BODY:
         env["CONTENT_LENGTH"] = str(len(body))
     for k, v in vars_.items():
-        env[k] = v
+        if v is None:
+            env.pop(k, None)       # the client did not send it
+        else:
+            env[k] = v
     return CONFIGS[config](env)
 
 
@@ -526,6 +616,15 @@ def alphabet(extra):
     return out
 
 
+def gen_strings2(alpha):
+    """all concatenations of 1..2 atoms"""
+    for a in alpha:
+        yield a
+    for a in alpha:
+        for b in alpha:
+            yield a + b
+
+
 def seqs_from(alpha, first, depth, dmin=1):
     """All concatenations of dmin..depth atoms whose first atom is alpha[first], shortest first."""
     head = alpha[first]
@@ -637,7 +736,93 @@ def units(tier):
                 us.append(("pair", b, a, i, 2, 1))
     for i in range(len(CT_BODY_TYPES)):
         us.append(("ctbody", i))
+    # ---- round 2: grammar alphabets, site order, absent variables / server variants, storage classes, part headers
+    for name in SINKS:
+        n = len(galphabet(name))
+        for i in range(n):
+            if T:
+                for j in range(0, n, 8):
+                    us.append(("gsink", name, i, (j, min(n, j + 8)), 4))
+            else:
+                us.append(("gsink", name, i, None, 3))
+    for var in VARS:
+        if var not in GRAMMAR:
+            continue
+        n = len(galphabet(var))
+        for i in range(n):
+            us.append(("genv", var, i, None, 3, "all" if T else "deps"))
+            if T and var in GDEEP_VARS:
+                for j in range(0, n, 8):
+                    us.append(("genv", var, i, (j, min(n, j + 8)), 4, "deps"))
+    for i in range(len(galphabet("HTTP_HOST"))):
+        for cfg in ("trusted_hosts", "trusted_str"):
+            us.append(("genv-cfg", "HTTP_HOST", i, cfg))
+    for var in ORDER_VARS:
+        n = len(alphabet(VARS[var]))
+        for i in range(0, n, 8):
+            us.append(("order", var, (i, min(n, i + 8))))
+    for i in range(len(SERVER_VARIANTS)):
+        us.append(("server", i))
+    for var in ("QUERY_STRING", "HTTP_COOKIE", "HTTP_X_FORWARDED_FOR", "CONTENT_TYPE"):
+        n = len(alphabet(VARS[var]))
+        for i in range(0, n, 8):
+            us.append(("storage", var, (i, min(n, i + 8))))
+    for i in range(len(MP_CD)):
+        us.append(("mpart", i))
+    for var in ("CONTENT_LENGTH", "HTTP_TRANSFER_ENCODING", "CONTENT_TYPE"):
+        n = len(galphabet(var))
+        for i in range(0, n, 8):
+            us.append(("limits", var, (i, min(n, i + 8))))
+    us.append(("limits-body",))
     return us
+
+
+# variables whose sites share cached state / the body stream: read again in reverse site order
+ORDER_VARS = ["CONTENT_TYPE", "CONTENT_LENGTH", "HTTP_TRANSFER_ENCODING", "QUERY_STRING", "HTTP_HOST", "PATH_INFO"]
+SERVER_VARIANTS = [
+    {"HTTP_HOST": None},
+    {"HTTP_HOST": None, "SERVER_NAME": "::1", "SERVER_PORT": "8080"},
+    {"HTTP_HOST": None, "SERVER_NAME": "[::1]", "SERVER_PORT": "80"},
+    {"HTTP_HOST": None, "SERVER_NAME": "unix/socket", "SERVER_PORT": ""},
+    {"HTTP_HOST": None, "wsgi.url_scheme": "https", "SERVER_PORT": "443"},
+    {"wsgi.url_scheme": "https"},
+    {"wsgi.url_scheme": "wss"},
+    {"REMOTE_ADDR": None},
+    {"CONTENT_TYPE": None},
+    {"CONTENT_LENGTH": None},
+    {"CONTENT_LENGTH": None, "wsgi.input_terminated": True},
+    {"QUERY_STRING": None},
+    {"PATH_INFO": None},
+    {"PATH_INFO": None, "SCRIPT_NAME": ""},
+    {"REQUEST_METHOD": "GET"},
+    {"REQUEST_METHOD": "GET", "CONTENT_TYPE": None, "CONTENT_LENGTH": None},
+]
+# which hostile variables to combine with each server-side variant (depth <= 2, all sites)
+SERVER_HOSTILE = ["HTTP_HOST", "CONTENT_TYPE", "CONTENT_LENGTH", "QUERY_STRING", "PATH_INFO", "HTTP_TRANSFER_ENCODING",
+                  "HTTP_X_FORWARDED_FOR"]
+
+MP_CD = [
+    'form-data; name="a"', 'form-data; name="a"; filename="f"', "form-data; name*=UTF-8''%FF", "form-data; name=a; filename*0*=x''%FF",
+    "form-data", "\xff", "", "attachment; name=a", 'form-data; name="a\\"b"; filename="c:\\d"', "form-data; name=a; filename=",
+    'form-data; name="\xff"; filename="\xff"', "form-data; name=a; name=b", None,
+]
+MP_CT = [None, "text/plain", "text/plain; charset=utf-8", "text/plain; charset=iso-8859-1", "text/plain; charset=US-ASCII",
+         "text/plain; charset=\xff", "text/plain; charset=utf-16", "text/plain; charset=zip", "\xff/\xff", "; charset=ascii",
+         'a; charset="us-ascii"', "text/plain; charset*=UTF-8''utf-8"]
+MP_CL = [None, "x", "5", "-1", "\xff", "99999999999999999999"]
+MP_DATA = [b"v", b"\xff", b"", b"\xc3", b"\xe9 \x80"]
+MP_HDR_STYLE = ["Content-Disposition", "content-disposition", "CONTENT-DISPOSITION "]
+
+
+def mp_body(cd, ct, cl, data, style=0, nl=b"\r\n"):
+    lines = []
+    if cd is not None:
+        lines.append(MP_HDR_STYLE[style].encode() + b": " + cd.encode("latin-1"))
+    if ct is not None:
+        lines.append(b"Content-Type: " + ct.encode("latin-1"))
+    if cl is not None:
+        lines.append(b"Content-Length: " + cl.encode("latin-1"))
+    return b"--bnd" + nl + nl.join(lines) + nl + nl + data + nl + b"--bnd--" + nl
 
 
 # ------------------------------------------------------------------ evaluation
@@ -705,9 +890,14 @@ def eval_sink(ctx, name, f, v, family="sink"):
     _SLOT[0] = None
 
 
+SITES_REV = SITES[::-1]
+
+
 def eval_request(ctx, vars_, body=BODY, config="default", family="env", sites=SITES):
     """One real Request on one environ; every site is read in the fixed order."""
-    label = "+".join(vars_) if vars_ else "-"
+    label = "+".join(k for k in vars_ if k in VARS) or "-"
+    if sites is SITES_REV:
+        family = family + ":reverse"
     if family == "ctbody":
         label = "CONTENT_TYPE+body"
     try:
@@ -864,6 +1054,113 @@ def _run(unit, kind, R, ctx, tier):
             for cl in ("0", "1", str(len(body) + 5), "", "x"):
                 eval_request(ctx, {"CONTENT_TYPE": ct, "CONTENT_LENGTH": cl}, body=body, family="ctbody")
         return
+    if kind == "gsink":
+        _k, name, first, second, depth = unit
+        f = SINKS[name][0]
+        alpha = galphabet(name)
+        R.use("gsink:" + name)
+        if second is None:
+            for k in range(1, depth + 1):
+                for v in seqs_from(alpha, first, k, k):
+                    eval_sink(ctx, name, f, v, family="grammar")
+                    note_input(R, name, v, 0)
+        else:
+            for j in range(*second):
+                head = alpha[first] + alpha[j]
+                for t in itertools.product(alpha, repeat=depth - 2):
+                    eval_sink(ctx, name, f, head + "".join(t), family="grammar")
+                    ctx.deep += 1
+        return
+    if kind == "genv":
+        _k, var, first, second, depth, which = unit
+        alpha = galphabet(var)
+        sites = SITES if which == "all" else site_deps()[var]
+        R.use("genv:" + var)
+        if second is None:
+            for k in range(1, depth + 1):
+                for v in seqs_from(alpha, first, k, k):
+                    eval_request(ctx, {var: v}, family="grammar", sites=sites)
+                    note_input(R, var, v, 0)
+        else:
+            for j in range(*second):
+                head = alpha[first] + alpha[j]
+                for t in itertools.product(alpha, repeat=depth - 2):
+                    eval_request(ctx, {var: head + "".join(t)}, family="grammar", sites=sites)
+                    ctx.deep += 1
+        return
+    if kind == "genv-cfg":
+        _k, var, first, cfg = unit
+        alpha = galphabet(var)
+        R.use("config:" + cfg)
+        for v in seqs_from(alpha, first, 3):
+            eval_request(ctx, {var: v}, config=cfg, family="grammar", sites=site_deps()[var])
+        return
+    if kind == "order":
+        _k, var, (f0, f1) = unit
+        alpha = alphabet(VARS[var])
+        R.use("order:reverse")
+        for fi in range(f0, f1):
+            for v in seqs_from(alpha, fi, 2):
+                eval_request(ctx, {var: v}, sites=SITES_REV)
+        return
+    if kind == "server":
+        variant = SERVER_VARIANTS[unit[1]]
+        R.use("server-variant")
+        eval_request(ctx, dict(variant), family="server")
+        eval_request(ctx, dict(variant), family="server", sites=SITES_REV)
+        for var in SERVER_HOSTILE:
+            if var in variant:
+                continue
+            alpha = galphabet(var) if var in GRAMMAR else alphabet(VARS[var])
+            for v in (gen_strings2(alpha) if var == "HTTP_HOST" else alpha):
+                ov = dict(variant)
+                ov[var] = v
+                eval_request(ctx, ov, family="server")
+        return
+    if kind == "storage":
+        _k, var, (f0, f1) = unit
+        alpha = alphabet(VARS[var])
+        R.use("config:plain_storage")
+        for fi in range(f0, f1):
+            for v in seqs_from(alpha, fi, 2):
+                eval_request(ctx, {var: v}, config="plain_storage")
+        return
+    if kind == "limits":
+        _k, var, (f0, f1) = unit
+        alpha = galphabet(var)
+        R.use("config:limits")
+        for fi in range(f0, f1):
+            for v in seqs_from(alpha, fi, 2):
+                for extra_env in ({}, {"wsgi.input_terminated": True}):
+                    ov = {var: v}
+                    ov.update(extra_env)
+                    eval_request(ctx, ov, config="limits", family="limits")
+        return
+    if kind == "limits-body":
+        R.use("config:limits")
+        for ct in CT_BODY_TYPES[:4] + CT_BODY_TYPES[10:12]:
+            for body in CT_BODIES + [mp_body('form-data; name="a"', None, None, b"v" * 9),
+                                     mp_body('form-data; name="a"', None, None, b"v") * 2]:
+                for extra_env in ({}, {"wsgi.input_terminated": True}, {"CONTENT_LENGTH": None, "wsgi.input_terminated": True}):
+                    ov = {"CONTENT_TYPE": ct}
+                    ov.update(extra_env)
+                    eval_request(ctx, ov, body=body, config="limits", family="limits")
+                    eval_request(ctx, ov, body=body, config="limits", family="limits", sites=SITES_REV)
+        return
+    if kind == "mpart":
+        cd = MP_CD[unit[1]]
+        R.use("mpart")
+        ct_hdr = "multipart/form-data; boundary=bnd"
+        for ct in MP_CT:
+            for cl in MP_CL:
+                for data in MP_DATA:
+                    body = mp_body(cd, ct, cl, data)
+                    eval_request(ctx, {"CONTENT_TYPE": ct_hdr}, body=body, family="mpart")
+                    R.nontrivial(("mpart", body))
+            for style in (1, 2):
+                eval_request(ctx, {"CONTENT_TYPE": ct_hdr}, body=mp_body(cd, ct, None, b"v", style), family="mpart")
+            eval_request(ctx, {"CONTENT_TYPE": ct_hdr}, body=mp_body(cd, ct, None, b"v", 0, b"\n"), family="mpart")
+        return
     if kind == "ramp-sink":
         _k, name, n = unit
         f, extra = SINKS[name]
@@ -909,7 +1206,13 @@ def finalize(R, tier):
             raise core.Broken(f"alphabet atom {a!r} is not latin-1")
     need = {"sink:" + n for n in SINKS} | {"var:" + v for v in VARS} | {"config:trusted_hosts", "ctbody", "ramp-sink", "ramp-env"}
     need |= {"pair:" + "+".join(sorted(p)) for p in PAIRS}
-    need |= {"sites:all", "sites:deps"}
+    need |= {"sites:all", "sites:deps", "order:reverse", "server-variant", "config:plain_storage", "config:trusted_str",
+             "mpart", "config:limits"}
+    need |= {"gsink:" + n for n in SINKS} | {"genv:" + v for v in VARS if v in GRAMMAR}
+    for name, atoms in GRAMMAR.items():
+        for a in list(atoms) + NASTY:
+            if _CTRL.search(a) or max(map(ord, a)) > 255:
+                raise core.Broken(f"grammar atom {a!r} of {name} is outside the property's domain")
     need |= {"atom:" + repr(a) for a in BASE}
     missing = need - R.used
     if missing:
@@ -928,8 +1231,10 @@ def finalize(R, tier):
     if R.counts["executions"] < 10000:
         raise core.Broken("vacuity: request level barely ran")
     return {
-        "bound": ("standalone depth 3, request depth 3 (interpreted variables) / 2, pairs depth 1, ramps to 4096"
-                  if tier == "quick" else "standalone depth 4, request depth 3, pairs depth 2, ramps to 4096"),
+        "bound": ("standalone depth 3 (base and grammar alphabets), request depth 3 on dependent sites / 2 on all sites, "
+                  "pairs depth 1, ramps to 4096" if tier == "quick" else
+                  "standalone depth 4 (base and grammar alphabets), request depth 3 on all sites, 4 on dependent sites for "
+                  "the request-parsed variables, pairs depth 2, ramps to 4096"),
         "exhaustive": True,
         "cpu_budget_per_call_s": BUDGET_TICKS,
         "request_sites": len(SITES),
@@ -987,7 +1292,7 @@ def _replay(rec):
             # order dependence: read the sites in the explorer's order up to this one
             def ordered():
                 req = make_request(vars_, body, rec.get("config", "default"))
-                for s in SITES:
+                for s in (SITES_REV if str(rec.get("family", "")).endswith(":reverse") else SITES):
                     if s == site:
                         read_site(req, s)
                         return
@@ -1059,7 +1364,25 @@ def _f_trusted(rec):
             and all(t.startswith("idna.") for t in rec["tb"][list(rec["tb"]).index("utils.host_is_trusted") + 1:]))
 
 
+_LONG_DIGITS = re.compile(r"[0-9]{10,}")
+_DATE_SITES = {"if_modified_since": "HTTP_IF_MODIFIED_SINCE", "if_unmodified_since": "HTTP_IF_UNMODIFIED_SINCE",
+               "date": "HTTP_DATE", "if_range": "HTTP_IF_RANGE"}
+
+
+def _f_date_overflow(rec):
+    """a date field (day / year / hour / minute / second) >= 2**31 makes email.utils raise OverflowError"""
+    if rec["exc"] != "OverflowError" or "http.parse_date" not in rec["tb"]:
+        return False
+    if not (rec["tb"][-1:] == ["utils.parsedate_to_datetime"] or rec["tb"][-1:] == ["http.parse_date"]):
+        return False
+    if rec["kind"] == "sink":
+        return rec["site"] in ("parse_date", "parse_if_range_header") and bool(_LONG_DIGITS.search(rec["input"]))
+    var = _DATE_SITES.get(rec["site"])
+    return var is not None and bool(_LONG_DIGITS.search(rec["vars"].get(var) or ""))
+
+
 FINDINGS = {
+    "C07-parse-date-overflowerror": _f_date_overflow,
     "C07-trusted-hosts-idna-unicodeerror": _f_trusted,
     "C07-authorization-basic-non-ascii": _f_auth,
     "C07-query-string-invalid-utf8": _f_query,
